@@ -10,7 +10,7 @@ from .srvfam import ConnFamily, racy, gen_case, gen_orderly, get_loop, parse_mod
 
 ID = "C04"
 READY = True
-LEAN_TARGETS = ["NauyacaVerif.Props.C04", "NauyacaVerif.Props.Translated"]
+LEAN_TARGETS = ["NauyacaVerif.Props.C04", "NauyacaVerif.Props.Tr.Chain"]
 THEOREMS = ['NauyacaVerif.C04.handler_gated', 'NauyacaVerif.C04.mw_once', 'NauyacaVerif.C04.undecided_no_handler', 'NauyacaVerif.C04.deny_is_response', 'NauyacaVerif.C04.raise_refuses', 'NauyacaVerif.C04.rejection_not_success', 'NauyacaVerif.C04.mwResponses_wf', 'NauyacaVerif.C04.pump_handler_gated'] + ['NauyacaVerif.Translated.chain_first_reject']
 TRANSLATED = ['chain']
 EXTRACT = ["mwResponses"]
